@@ -1,2 +1,1 @@
-"""Stand-in for the `ripemd` package (absent here): RIPEMD-160 through OpenSSL's hashlib."""
-from . import ripemd160  # noqa: F401
+"""Stand-in for the ripemd-hash package (only ripemd160.new is used by symbolchain/ripemd160.py)."""
